@@ -90,6 +90,8 @@ let functions : (string * (val0 -> val0)) list = [
   ("hub", hub_run);
   ("votes", votes_run);
   ("sigset", sigset_run);
+  ("ckpt", ckpt_run);
+  ("sig", sig_run);
 ]
 
 (* monitors: (property, suite) -> case -> implementation output -> list of violations *)
@@ -103,6 +105,8 @@ let monitors : ((string * string) * (val0 -> val0 -> val0)) list = [
   (("C02", "votes"), mon_C02);
   (("C03", "votes"), mon_C03);
   (("C09", "sigset"), mon_C09);
+  (("C07", "ckpt"), mon_C07_ckpt);
+  (("C07", "sig"), mon_C07_sig);
 ]
 
 let first_diff (a : val0) (b : val0) : int =
